@@ -110,6 +110,9 @@ class Check(PropertyCheck):
             # one scenario in five: instance transformations (which return new instances) were applied to the instance before its
             # graphs are built
             lines = ["new", instance_line(jobs)] + (["xform"] if rng.random() < 0.2 else []) + ["graph " + b for b in BUILDERS]
+            if rng.random() < 0.3:
+                # the schedule whose graph is built is not the dispatcher's first: an episode was abandoned before it
+                lines += slices.abandoned_prelude(rng, jobs)
             tr = gen.Tracker(jobs)
             while not tr.done():
                 j, p, m = gen.gen_valid_request(rng, tr)
@@ -119,6 +122,8 @@ class Check(PropertyCheck):
             if rng.random() < 0.5:
                 # a second, different complete schedule of the SAME instance object: its solved graph is its own
                 lines.append("reset")
+                if rng.random() < 0.4:
+                    lines += slices.abandoned_prelude(rng, jobs)
                 tr.reset()
                 while not tr.done():
                     j, p, m = gen.gen_valid_request(rng, tr, rng.choice(["uniform", "last_job_first"]))
